@@ -343,11 +343,16 @@ func cmdCheck(args []string) int {
 	nOb, nDis, nVac := 0, 0, 0
 	deadReturns := 0
 	reachableReturns := map[string]int{}
+	reachableBackEdges := map[string]int{}
 	for _, o := range allObs {
 		if o.Kind == "vacuity.return" && o.Result.Status != "unsat" {
 			reachableReturns[o.Func]++
 		}
+		if o.Kind == "vacuity.backedge" && o.Result.Status != "unsat" {
+			reachableBackEdges[o.Group]++
+		}
 	}
+	reportedLoop := map[string]bool{}
 	solverTime := int64(0)
 	perOb := []map[string]interface{}{}
 	var samples []interface{}
@@ -378,6 +383,14 @@ func cmdCheck(args []string) int {
 				// some return of the function is reachable under the contract assumptions
 				deadReturns++
 				continue
+			}
+			if o.Kind == "vacuity.backedge" {
+				// one unreachable back edge next to reachable ones is dead code in the source; a loop none of whose back
+				// edges is reachable has a vacuous invariant proof (reported once per loop)
+				if o.Result.Status != "unsat" || reachableBackEdges[o.Group] > 0 || reportedLoop[o.Group] {
+					continue
+				}
+				reportedLoop[o.Group] = true
 			}
 			if o.Result.Status == "unsat" {
 				fmt.Printf("FAILED %s: assumptions are contradictory (vacuous proof)\n", o.Name)
